@@ -1191,22 +1191,13 @@ theorem violation_eq (isServer d readFinal : Bool) (f : Frame) (h : f.WF) :
         simp only [h0', hk, Bool.false_eq_true, if_false]
         cases mk <;> cases tp <;> cases f.rsv1 <;> cases f.rsv2 <;> cases f.rsv3 <;> simp
 
-/-- The close-code table extracted from the Go source is the RFC 6455 §7.4 / IANA set of the spec. -/
+/-- The set of close codes the Go source accepts (evaluated for every 16-bit code by the translator) is the
+RFC 6455 §7.4 / IANA set of the spec. The proof does not depend on how the generated runs are cut. -/
 theorem closeCode_eq (c : Nat) : Spec.Ws.validCloseCode c = isValidReceivedCloseCode c := by
-  by_cases h : c < 1100
-  · by_cases h1 : c < 990
-    · simp only [Spec.Ws.validCloseCode, isValidReceivedCloseCode, validReceivedCloseCodes]
-      have e : ∀ k : Nat, 990 ≤ k → (c == k) = false := by intro k hk; simp; omega
-      have e' : ∀ k : Nat, 990 ≤ k → ¬ c = k := by intro k hk; omega
-      simp [e, e', show ¬ 3000 ≤ c by omega]
-    · have key : ∀ i : Fin 110, Spec.Ws.validCloseCode (990 + i.val) = isValidReceivedCloseCode (990 + i.val) := by
-        decide +kernel
-      have := key ⟨c - 990, by omega⟩
-      simpa [show 990 + (c - 990) = c by omega] using this
-  · simp only [Spec.Ws.validCloseCode, isValidReceivedCloseCode, validReceivedCloseCodes]
-    have e : ∀ k : Nat, k < 1100 → (c == k) = false := by intro k hk; simp; omega
-    have e' : ∀ k : Nat, k < 1100 → ¬ c = k := by intro k hk; omega
-    simp [e, e']
+  rw [Bool.eq_iff_iff]
+  simp only [Spec.Ws.validCloseCode, isValidReceivedCloseCode, closeCodeAccepted, Bool.or_eq_true, Bool.and_eq_true,
+    beq_iff_eq, decide_eq_true_eq]
+  omega
 
 theorem inR_iff (b : UInt8) (lo hi : Nat) : Spec.Ws.inR b lo hi = (decide (lo ≤ b.toNat) && decide (b.toNat ≤ hi)) := rfl
 theorem tailB_iff (b : UInt8) : Spec.Ws.tailB b = (decide (0x80 ≤ b.toNat) && decide (b.toNat ≤ 0xBF)) := rfl
